@@ -14,7 +14,9 @@ import time
 
 VERIF = os.path.dirname(os.path.dirname(os.path.abspath(__file__)))
 REPO = os.environ.get("VERIF_REPO", "/repo")
-WORK = os.path.join(VERIF, ".work")
+WORK = os.environ.get("VERIF_WORK") or os.path.join(VERIF, ".work")
+# evidence of runs against a scratch copy of the repository never overwrites the real evidence
+EVID = os.path.join(VERIF, "evidence") if not os.environ.get("VERIF_WORK") else os.path.join(WORK, "evidence")
 SPECS = os.path.join(VERIF, "specs")
 HARNESS = os.path.join(VERIF, "harness")
 GUARD = "OMPL_VERIF"
@@ -45,7 +47,7 @@ def seed():
 
 def _ccache_env():
     env = dict(os.environ)
-    env["CCACHE_DIR"] = ensure_dir(os.path.join(WORK, "ccache"))
+    env["CCACHE_DIR"] = ensure_dir(os.path.join(VERIF, ".work", "ccache"))
     env["CCACHE_BASEDIR"] = "/"
     env.setdefault("CCACHE_MAXSIZE", "4G")
     return env
@@ -428,12 +430,12 @@ class Check:
               "coverage": cov, "assumptions": self.assumptions, "wall_s": round(wall, 2),
               "violations": len(self.violations),
               "known_findings_hit": sorted(self.known_hits.keys())}
-        ensure_dir(os.path.join(VERIF, "evidence"))
-        tmp = os.path.join(VERIF, "evidence", self.pid + ".json.tmp")
+        ensure_dir(EVID)
+        tmp = os.path.join(EVID, self.pid + ".json.tmp")
         with open(tmp, "w") as f:
             json.dump(ev, f, indent=1, sort_keys=True)
             f.write("\n")
-        os.replace(tmp, os.path.join(VERIF, "evidence", self.pid + ".json"))
+        os.replace(tmp, os.path.join(EVID, self.pid + ".json"))
         log("[%s] %s tier: %d violation(s), %d known finding(s), %.1fs" %
             (self.pid, self.tier, len(self.violations), len(self.known_hits), wall))
         return 1 if self.violations else 0
